@@ -192,3 +192,70 @@ Proof.
   intros V. destruct (publish_h_simulates st script topic idx h (hreads h idx) V eq_refl) as (A1 & A2 & _).
   rewrite A1, A2. apply publish_obs.
 Qed.
+
+(** ** every in-place run is accepted by the acceptor the check evaluates — ALL batches *)
+Lemma in_hreads h r i m : In i r -> nth_error h i = Some m -> In m (hreads h r).
+Proof.
+  unfold hreads. induction r as [|j r IH]; intros Hin E; [contradiction|]. simpl. apply in_or_app.
+  destruct Hin as [->|Hin]; [left; rewrite E; left; reflexivity | right; apply IH; assumption].
+Qed.
+
+Lemma nodup_of_snapshot h idx : hvalid_all h idx -> has_dup (hreads h idx) = false -> NoDup idx.
+Proof.
+  unfold has_dup. intros V H. apply negb_false_iff in H.
+  induction idx as [|i r IH]; [constructor|]. inversion V; subst.
+  destruct (valid_some h i H2) as [m E]. rewrite (hreads_cons h i r m E) in H. simpl in H.
+  apply andb_true_iff in H as [Hn Hr]. apply negb_true_iff in Hn. constructor; [|apply IH; assumption].
+  intros Hin. pose proof (in_hreads h r i m Hin E) as Hm.
+  assert (X : existsb (N.eqb (pm_id m)) (map pm_id (hreads h r)) = true).
+  { apply existsb_exists. exists (pm_id m). split; [apply in_map; exact Hm | apply N.eqb_refl]. }
+  congruence.
+Qed.
+
+Lemma publish_h_call_ok_all st script topic idx h : hvalid_all h idx ->
+  call_ok_any st (PObs topic (hreads h idx) (ho_ev (publish_h st script topic idx h)) (hd None script)
+                       (ho_res (publish_h st script topic idx h))
+                       (hreads (ho_heap (publish_h st script topic idx h)) idx)) = true.
+Proof.
+  intros V. destruct (has_dup (hreads h idx)) eqn:D.
+  - unfold call_ok_any. cbn [c_before]. rewrite D. apply publish_h_call_ok_dup.
+  - apply publish_h_call_ok_any; [apply (nodup_of_snapshot h idx V D) | exact V].
+Qed.
+
+Definition valid_calls (n : nat) (calls : list pcall) : Prop :=
+  Forall (fun c => Forall (fun i => i < n) (pc_batch c)) calls.
+
+Lemma pstep_h_len st s c : length (ps_heap (pstep_h st s c)) = length (ps_heap s).
+Proof.
+  unfold pstep_h. cbn [ps_heap].
+  destruct (publish_h_shape st (ps_script s) (pc_topic c) (pc_batch c) (ps_heap s)) as (A & _).
+  apply (f_equal (@length N)) in A. rewrite !map_length in A. exact A.
+Qed.
+
+Lemma prun_h_calls_ok_all st calls : forall s, valid_calls (length (ps_heap s)) calls ->
+  forallb (call_ok_any st) (pobs_run_h st s calls) = true.
+Proof.
+  induction calls as [|c cs IH]; intros s H; [reflexivity|]. inversion H as [|? ? V Hr]; subst.
+  cbn [pobs_run_h forallb]. rewrite (publish_h_call_ok_all st _ _ _ _ V). simpl.
+  apply IH. unfold valid_calls. rewrite pstep_h_len. exact Hr.
+Qed.
+
+Lemma prun_h_obs_all st calls : forall s, valid_calls (length (ps_heap s)) calls ->
+  ps_obs (fold_left (pstep_h st) calls s) = ps_obs s ++ spec_pub_obs st (pobs_run_h st s calls).
+Proof.
+  induction calls as [|c cs IH]; intros s H; [simpl; symmetry; apply app_nil_r|].
+  inversion H as [|? ? V Hr]; subst.
+  cbn [fold_left pobs_run_h]. rewrite IH by (unfold valid_calls; rewrite pstep_h_len; exact Hr).
+  rewrite spec_pub_obs_cons. unfold pstep_h at 1. cbn [ps_obs]. rewrite <- app_assoc. f_equal. f_equal.
+  unfold spec_pub_obs. cbn [flat_map c_before c_res]. rewrite app_nil_r. apply publish_h_obs. exact V.
+Qed.
+
+Lemma pub_monitor_any_model_all st heap script calls tab :
+  valid_calls (length heap) calls ->
+  counts_agree plabel_eqb tab (ps_obs (prun_h st heap script calls)) = true ->
+  pub_monitor_any st (pobs_run_h st (PS heap script [] [] []) calls) tab = true.
+Proof.
+  intros G H. unfold pub_monitor_any.
+  rewrite (prun_h_calls_ok_all st calls (PS heap script [] [] []) G). simpl.
+  unfold prun_h in H. rewrite (prun_h_obs_all st calls (PS heap script [] [] []) G) in H. exact H.
+Qed.
